@@ -22,6 +22,8 @@ func init() {
 		verifScenario{"C02/interp.shr/*", panics("package main\nfunc main() { x, s := 8, -1; println(x >> s) }")},
 		verifScenario{"C02/interp.shlAssign/*", panics("package main\nfunc main() { x, s := 1, -1; x <<= s; println(x) }")},
 		verifScenario{"C02/interp.shrAssign/*", panics("package main\nfunc main() { x, s := 8, -1; x >>= s; println(x) }")},
+		verifScenario{"C02/interp.Interpreter.cfg/case:binaryExpr#4/*", prints("package main\nfunc f(x int) interface{} { return x << 1 }\nfunc main() { var e interface{}; x := 8; e = x >> 1; println(e.(int)); e = x % 3; println(e.(int)); println(f(x).(int)); println(\"end\") }", "4\n2\n16\nend\n")},
+		verifScenario{"C02/interp.Interpreter.cfg/case:unaryExpr#4/*", prints("package main\nfunc f(x int) interface{} { return -x }\nfunc g(b bool) interface{} { return !b }\nfunc main() { var e interface{}; x := 8; e = -x; println(e.(int)); e = ^x; println(e.(int)); println(f(x).(int), g(true).(bool)); println(\"end\") }", "-8\n-9\n-8 false\nend\n")},
 		verifScenario{"C02/interp.inc/post:complete:admitted-kinds", prints("package main\nfunc main() { var p uintptr = 7; p++; println(p); println(\"end\") }", "8\nend\n")},
 		verifScenario{"C02/interp.dec/post:complete:admitted-kinds", prints("package main\nfunc main() { var p uintptr = 7; p--; println(p); println(\"end\") }", "6\nend\n")},
 	)
